@@ -138,7 +138,7 @@ inductive Ev
   | lock (r : Int)
   | unlock (r : Int)
   | rd (b : Option Byte)
-  | wr (f : Fsm) (b : Byte) (acc : Bool)
+  | wr (f : Fsm) (b : Byte) (acc : Bool) (part : Char)   -- part: b/m/a/r (where in the unit)
   | handler (f : Fsm) (k : HKind) (cmd : Nat) (data : List Byte) (z : Bool) (len aux : Nat) (ret : Int)
   | varcb (f : Fsm) (cmd idx : Nat) (isWrite : Bool) (size : Nat) (ret : Int)
   | nestedTrig (cmd : Nat) (t : Int) (ret : Int)
